@@ -316,35 +316,7 @@ func c16StraceUnit(in c16Input) Unit {
 			return
 		}
 		c.Sample(map[string]any{"input": fmt.Sprintf("lines=%d words=%d dir=%s", in.Lines, in.Words, in.DirPre), "syscall_window": w.calls[:min(len(w.calls), 14)], "syscalls_in_window": len(w.calls)})
-		// binding of the shim to the real system calls: the in-process operation trace of the same save
-		// must correspond to the traced window (writes 1:1, one create, one rename, closes, one unlink)
-		in.prepareDir()
-		rec := &c16Hook{crashAt: -1}
-		vfs.H = rec
-		rapid.VerifSaveFailFile(in.File, rapid.VerifVersion(), in.Out, 99, in.Buf)
-		vfs.H = nil
-		cnt := func(xs []string, pfx string) int {
-			n := 0
-			for _, x := range xs {
-				if strings.HasPrefix(x, pfx) {
-					n++
-				}
-			}
-			return n
-		}
-		pairs := [][2]string{{"write:", "write "}, {"rename:", "renameat"}, {"remove:", "unlinkat"}}
-		for _, p := range pairs {
-			a, b := cnt(rec.ops, p[0]), cnt(w.calls, p[1])
-			ok := a == b
-			if p[0] == "remove:" {
-				ok = b >= a && b <= 2*a // os.Remove tries unlink and, if that fails, rmdir
-			}
-			if !ok {
-				c.R.HarnessErr = fmt.Sprintf("shim/system-call binding broken: %d %q operations in the shim trace, %d %q system calls in the traced window", a, p[0], b, p[1])
-				return
-			}
-		}
-		c.Count("shim_traces_matched_against_syscall_traces", 1)
+
 		occ := map[string]int{}
 		for i, call := range w.calls {
 			if c.Expired() {
@@ -378,6 +350,35 @@ func c16StraceUnit(in c16Input) Unit {
 					Replay: map[string]any{"engine": "strace", "input": in, "syscall": name, "occurrence": occ[name], "when": when, "window": w.calls[:min(len(w.calls), 30)]}, Devs: i})
 			}
 		}
+		// binding of the shim to the real system calls: the in-process operation trace of the same save
+		// must correspond to the traced window (writes 1:1, one create, one rename, closes, one unlink)
+		in.prepareDir()
+		rec := &c16Hook{crashAt: -1}
+		vfs.H = rec
+		rapid.VerifSaveFailFile(in.File, rapid.VerifVersion(), in.Out, 99, in.Buf)
+		vfs.H = nil
+		cnt := func(xs []string, pfx string) int {
+			n := 0
+			for _, x := range xs {
+				if strings.HasPrefix(x, pfx) {
+					n++
+				}
+			}
+			return n
+		}
+		pairs := [][2]string{{"write:", "write "}, {"rename:", "renameat"}, {"remove:", "unlinkat"}}
+		for _, p := range pairs {
+			a, b := cnt(rec.ops, p[0]), cnt(w.calls, p[1])
+			ok := a == b
+			if p[0] == "remove:" {
+				ok = b >= a && b <= 2*a // os.Remove tries unlink and, if that fails, rmdir
+			}
+			if !ok {
+				c.R.HarnessErr = fmt.Sprintf("shim/system-call binding broken: %d %q operations in the shim trace, %d %q system calls in the traced window", a, p[0], b, p[1])
+				return
+			}
+		}
+		c.Count("shim_traces_matched_against_syscall_traces", 1)
 		os.RemoveAll("testdata")
 	}}
 }
